@@ -1,6 +1,7 @@
 import Np.Proofs.MapCoef
 import Np.Proofs.Det
 import Np.Model.Maps
+import Np.Proofs.DetPoly
 /-! C10 — reductions and linear algebra equal finite sums and products of elements: property theorems -/
 namespace Np.Props.C10
 open MvPolynomial
@@ -58,4 +59,19 @@ theorem det_old_wrong : Det.detOld 1 (fun _ _ => (5 : Int)) ≠ Matrix.det (Matr
 /-- non-vacuity: summing the two elements of [q0+1, 3 q0] with weights (1, 1) -/
 example : (linearCol 1 [[(0, (1 : Int)), (1, 1)]] (Vector.ofFn (n := 2) fun i => if i.val = 0 then 1 else 3)).toList = [4] := by
   decide
+
+/-! ### the executable determinant of the model on polynomial arrays -/
+section detexec
+variable {R : Type} [CommRing R] [BEq R] [LawfulBEq R] {b : Nat}
+
+/-- **C10 (det) for the executable model, against Mathlib**: for an `n × n` matrix (or a stack of `b` of them) of
+well-formed polynomials, `detPoly` succeeds, the result is well-formed, and position `k` of it denotes
+`Matrix.det` of the matrix of the polynomials at position `k` — every size `n`, every stack size -/
+theorem det_array_is_det (rc rn : Bool) (n : Nat) (rows : List (List (Poly (Vec R b))))
+    (hl : rows.length = n) (hrow : ∀ row ∈ rows, row.length = n) (hwf : ∀ row ∈ rows, ∀ p ∈ row, WF p) :
+    ∃ d, detPoly rc rn n rows = some d ∧ WF d ∧ ∀ k : Fin b,
+      denAt d k = Matrix.det (Matrix.of fun (i j : Fin n) => denAt ((rows[i.val]!)[j.val]!) k) :=
+  detPoly_elem rc rn n rows hl hrow hwf
+end detexec
+
 end Np.Props.C10
